@@ -908,7 +908,9 @@ func runDhseqrNoConv(t *vlib.T, h0 M, ldx int) {
 			}); msg != "" {
 				// "bad shifts" / "not isolated" are internal consistency checks of Dlaqr1/Dlaqr5
 				// tripped by NaN shifts or NaN subdiagonals that a Dlahqr call inside Dlaqr04 produced
-				if (lahqrNaN || strings.Contains(msg, "bad shifts") || strings.Contains(msg, "not isolated")) && !strings.HasPrefix(msg, "HANG") {
+				if strings.Contains(msg, "index out of range") && strings.Contains(lastStack, "dlaqr23.go") {
+					finding(t, "dlaqr23-sort-reads-past-window", "Dlaqr23 reads T[i+1,i] one row below its deflation window after a non-converged window iteration: %s %s [%s]", msg, lastStack, ctx)
+				} else if (lahqrNaN || strings.Contains(msg, "bad shifts") || strings.Contains(msg, "not isolated")) && !strings.HasPrefix(msg, "HANG") {
 					finding(t, "dlahqr-underflow-nan", "Dlahqr fills H with NaN (0/0 in the unguarded normalisation of the shift vector) and Dhseqr then panics: %s %s [%s]", msg, lastStack, ctx)
 				} else if lahqrFails && !strings.HasPrefix(msg, "HANG") {
 					finding(t, "dhseqr-small-fallback-panics", "Dlahqr does not converge and the fallback of Dhseqr for n < 49 panics: %s %s [%s]", msg, lastStack, ctx)
